@@ -817,6 +817,169 @@ func evbGenHistory(rng interface{ Intn(int) int }, n int) []string {
 	return ops
 }
 
+
+// ---------- ONE handler object subscribed at both levels (exhaustive)
+
+// evbBothH is a single Go object that may be subscribed at the core level, at the application level, or at both.
+// It tells the two deliveries of a publication apart by where they run: the core delivery is synchronous on the
+// publishing goroutine, the application delivery runs on a goroutine of its own.
+type evbBothH struct {
+	mu          sync.Mutex
+	publisher   string
+	sync, async map[string]int
+}
+
+func (x *evbBothH) HandleEvent(p api.EventPayload) {
+	if !strings.HasPrefix(p.Ski, evbPrefix) {
+		return
+	}
+	atomic.AddInt64(&evbInflight, 1)
+	defer atomic.AddInt64(&evbInflight, -1)
+	me := h.Goid()
+	x.mu.Lock()
+	if me == x.publisher {
+		x.sync[p.Ski]++
+	} else {
+		x.async[p.Ski]++
+	}
+	x.mu.Unlock()
+}
+
+// evbSharedSeq runs one sequence of "shared subC|subA|unsubC|unsubA" on a fresh handler object, publishing after
+// every operation; the model is Spine.Bus with the handler as (0,9) and (1,9). Identity on the bus is the PAIR
+// (level, handler): a subscription at one level neither replaces, nor is removed with, the one at the other level.
+func evbSharedSeq(r *h.Report, d *h.Driver, ops []string, base int) bool {
+	x := &evbBothH{sync: map[string]int{}, async: map[string]int{}}
+	defer evbGuard(func() { _ = spine.VerifUnsubscribeCore(x); _ = spine.Events.Unsubscribe(x) })
+	d.Ask("reset")
+	var done []string
+	spec := [2]bool{} // subscribed at core / application level according to the calls that returned
+	for i, op := range ops {
+		f := strings.Fields(op)
+		if len(f) != 2 || f[0] != "shared" {
+			panic("bad op " + op)
+		}
+		var line string
+		ok := evbGuard(func() {
+			switch f[1] {
+			case "subC":
+				_ = spine.VerifSubscribeCore(x)
+				spec[0], line = true, "sub 0 9"
+			case "subA":
+				_ = spine.Events.Subscribe(x)
+				spec[1], line = true, "sub 1 9"
+			case "unsubC":
+				_ = spine.VerifUnsubscribeCore(x)
+				spec[0], line = false, "unsub 0 9"
+			case "unsubA":
+				_ = spine.Events.Unsubscribe(x)
+				spec[1], line = false, "unsub 1 9"
+			default:
+				panic("bad op " + op)
+			}
+		})
+		done = append(done, op)
+		if !ok {
+			r.SpecFail("blocked:"+f[1], done, "the call did not return")
+			return false
+		}
+		d.Ask(line)
+		ski := fmt.Sprintf("%sshared-%d", evbPrefix, i)
+		pubDone := make(chan struct{})
+		go func() {
+			x.mu.Lock()
+			x.publisher = h.Goid()
+			x.mu.Unlock()
+			spine.Events.Publish(api.EventPayload{Ski: ski, EventType: api.EventTypeDataChange})
+			close(pubDone)
+		}()
+		select {
+		case <-pubDone:
+		case <-time.After(evbWatchdog):
+			atomic.StoreInt32(&evbWedged, 1)
+			r.SpecFail("blocked:publish", done, "Publish did not return")
+			return false
+		}
+		evbSettle(base)
+		x.mu.Lock()
+		ns, na := x.sync[ski], x.async[ski]
+		x.mu.Unlock()
+		impl := fmt.Sprintf("core=%d application=%d", ns, na)
+		hl := d.Ask("handlers")
+		want := fmt.Sprintf("core=%d application=%d", h.B2i(strings.Contains(hl, "0/9")), h.B2i(strings.Contains(hl, "1/9")))
+		r.Eval("shared:"+f[1], "")
+		// SPEC, independent of the model: a level at which the handler is subscribed and was never unsubscribed since is served
+		// exactly once; nothing is delivered at a level after the unsubscription there returned
+		for l, n := range []int{ns, na} {
+			lv := []string{"core", "application"}[l]
+			switch {
+			case spec[l] && n == 0 && !strings.HasPrefix(f[1], "sub"):
+				r.SpecFail("unsubscribe-at-other-level-removes-subscription", done, fmt.Sprintf("the handler is subscribed at %s level and was not unsubscribed there; after %s the publication did not reach it at that level (%s)", lv, f[1], impl))
+			case !spec[l] && n > 0:
+				r.SpecFail("delivered-after-unsubscribe", done, fmt.Sprintf("the handler is not subscribed at %s level and received the publication there (%s)", lv, impl))
+			case n > 1:
+				r.SpecFail("delivered-twice", done, fmt.Sprintf("%d deliveries at %s level for one publication", n, lv))
+			}
+		}
+		if impl != want {
+			r.Mismatch(done, impl, want, "one handler object at both levels: "+op)
+			return true
+		}
+	}
+	r.Traces++
+	return true
+}
+
+// evbRunAny dispatches a history to the runner its ops belong to.
+func evbRunAny(r *h.Report, d *h.Driver, ops []string, base int) bool {
+	if len(ops) > 0 && strings.HasPrefix(ops[0], "shared ") {
+		for _, op := range ops {
+			if !strings.HasPrefix(op, "shared ") {
+				return true
+			}
+		}
+		return evbSharedSeq(r, d, ops, base)
+	}
+	if len(ops) == 0 {
+		return true
+	}
+	return evbRunHistory(r, d, ops, base)
+}
+
+// evbShared: every sequence of up to `depth` (un)subscriptions of ONE handler object at the two levels.
+func evbShared(r *h.Report, d *h.Driver, base int) bool {
+	alphabet := []string{"shared subC", "shared subA", "shared unsubC", "shared unsubA"}
+	depth := h.Scale(4, 6)
+	for n := 1; n <= depth; n++ {
+		idx := make([]int, n)
+		for {
+			ops := make([]string, 0, n)
+			for _, i := range idx {
+				ops = append(ops, alphabet[i])
+			}
+			if !evbSharedSeq(r, d, ops, base) {
+				return false
+			}
+			if r.MismatchN > 0 || len(r.SpecFailures) > 0 {
+				return true
+			}
+			k := n - 1
+			for k >= 0 {
+				idx[k]++
+				if idx[k] < len(alphabet) {
+					break
+				}
+				idx[k] = 0
+				k--
+			}
+			if k < 0 {
+				break
+			}
+		}
+	}
+	return true
+}
+
 // ---------- re-entrancy scenarios (SPEC monitor with watchdog, no model)
 
 // evbSelfH re-subscribes, unsubscribes and publishes from inside HandleEvent.
@@ -1756,6 +1919,10 @@ func evbSequential(r *h.Report) bool {
 			}
 			return false
 		}
+		if len(ops) > 0 && strings.HasPrefix(ops[0], "shared ") {
+			evbSharedSeq(r, d, ops, base)
+			return false
+		}
 		evbRunHistory(r, d, ops, base)
 		return false
 	}
@@ -1774,6 +1941,46 @@ func evbSequential(r *h.Report) bool {
 			return false
 		}
 	}
+	// EXHAUSTIVE grid: every sequence of `depth` operations over subscribe / unsubscribe x {core, application} x {handler 1,
+	// handler 2} and publish, followed by one publication that shows the handler list — all ways in which de-duplication
+	// (same level AND same handler) and removal (exactly that pair) can go wrong on two handlers at two levels
+	tr0, nt0, ev0 := r.Traces, r.Dist["history:nontrivial"], r.Evaluations
+	alphabet := []string{"sub 0 1", "sub 0 2", "sub 1 1", "sub 1 2", "unsub 0 1", "unsub 0 2", "unsub 1 1", "unsub 1 2", "pub"}
+	depth := h.Scale(3, 4)
+	idx := make([]int, depth)
+	for {
+		ops := make([]string, 0, depth+1)
+		for _, i := range idx {
+			ops = append(ops, alphabet[i])
+		}
+		ops = append(ops, "pub")
+		if !evbRunHistory(r, d, ops, base) {
+			return false
+		}
+		if r.MismatchN > 0 || len(r.SpecFailures) > 0 {
+			break
+		}
+		k := depth - 1
+		for k >= 0 {
+			idx[k]++
+			if idx[k] < len(alphabet) {
+				break
+			}
+			idx[k] = 0
+			k--
+		}
+		if k < 0 {
+			break
+		}
+	}
+	// ... and ONE handler object at both levels: identity on the bus is the pair (level, handler)
+	if r.MismatchN == 0 && len(r.SpecFailures) == 0 {
+		if !evbShared(r, d, base) {
+			return false
+		}
+	}
+	exhTraces, exhNontrivial := r.Traces-tr0, r.Dist["history:nontrivial"]-nt0
+	r.Info["exhaustive-grid"] = fmt.Sprintf("all %d-operation sequences over %d operations + final publication: %d histories, %d evaluations", depth, len(alphabet), exhTraces, r.Evaluations-ev0)
 	if !evbScenarios(r, base) {
 		return false
 	}
@@ -1791,11 +1998,11 @@ func evbSequential(r *h.Report) bool {
 		mm := r.Mismatches[0]
 		small := h.Shrink(mm.Ops, func(ops []string) bool {
 			q := h.Quiet()
-			evbRunHistory(q, d, ops, base)
+			evbRunAny(q, d, ops, base)
 			return q.MismatchN > 0
 		})
 		q := h.Quiet()
-		evbRunHistory(q, d, small, base)
+		evbRunAny(q, d, small, base)
 		if q.MismatchN > 0 {
 			r.ReplaceMismatch(0, small, q.Mismatches[0].Impl, q.Mismatches[0].Model)
 		}
@@ -1807,7 +2014,7 @@ func evbSequential(r *h.Report) bool {
 		key := sf.Key
 		small := h.Shrink(sf.Ops, func(ops []string) bool {
 			q := h.Quiet()
-			evbRunHistory(q, d, ops, base)
+			evbRunAny(q, d, ops, base)
 			return q.HasSpecFail(key)
 		})
 		r.ReplaceSpecFailOps(key, small)
@@ -1831,7 +2038,7 @@ func evbSequential(r *h.Report) bool {
 	}
 	r.Floor("publications among the operations", pubs, r.Evaluations, 0.30)
 	r.Floor("actions performed inside an application handler", appDone, appTotal, 0.40)
-	r.Floor("histories with both levels reached and a re-entrant action", r.Dist["history:nontrivial"], r.Traces, 0.50)
+	r.Floor("histories with both levels reached and a re-entrant action (generated histories)", r.Dist["history:nontrivial"]-exhNontrivial, r.Traces-exhTraces, 0.50)
 	return true
 }
 
